@@ -2,6 +2,7 @@
    (src/dtscalibration/dts_accessor_utils.py).  No proofs here. *)
 From Coq Require Import List ZArith Bool.
 Import ListNotations.
+Require Export DTS.Base.Vec.
 
 Section Shift.
 Context {A : Type}.
@@ -32,9 +33,6 @@ Definition shift_ds {A B} (i : Z) (d : dset A B) : dset A B :=
 (* ---- suggest_cable_shift_double_ended over exact integers (floats scaled by a common power of
    two; the argmin is invariant under that scaling and under the factor 1/2 of att) ---- *)
 Local Open Scope Z_scope.
-Fixpoint zipw {X Y W} (f : X -> Y -> W) (a : list X) (b : list Y) : list W :=
-  match a, b with x :: a', y :: b' => f x y :: zipw f a' b' | _, _ => [] end.
-Definition vsub (a b : list Z) := zipw Z.sub a b.
 Definition diff1 (l : list (list Z)) : list (list Z) := zipw vsub (tl l) l.      (* np.diff(n=1, axis=0) *)
 Definition diff2 l := diff1 (diff1 l).                                             (* np.diff(n=2, axis=0) *)
 Definition sumabs (l : list Z) := fold_right (fun v s => Z.abs v + s) 0 l.
